@@ -449,7 +449,12 @@ func init() {
 				c.ret(smt.BV(64, 0x10000000+uint64(p.C.ID)*4096+uint64(p.I)*8))
 			}
 		default:
-			panic(unsupported("reflect.Value.Pointer on " + kindOf(r.T).String()))
+			switch kindOf(r.T) {
+			case reflect.Chan, reflect.Map, reflect.Slice, reflect.UnsafePointer:
+				panic(unsupported("reflect.Value.Pointer on " + kindOf(r.T).String()))
+			}
+			// reflect refuses every other kind with a *ValueError panic
+			c.m.reflectPanic(c, "reflect: call of reflect.Value.Pointer on "+kindOf(r.T).String()+" Value")
 		}
 	})
 	add("(reflect.Value).Len", func(c *stubCtx) {
